@@ -119,12 +119,14 @@ pub fn run(tier: Tier, shard: Shard, stats: &mut Stats) {
                 // the order in which the style is put together must not matter: template first,
                 // progress characters first, or the template replaced on the style of a live bar
                 // (orders 3..=5: an alignment flag in the placeholder, which has no bearing on the cells of a bar)
-                for order in 0..if n <= 12 { 6 } else { 1 } {
-                let order_name = ["with_template, progress_chars", "progress_chars, template", "bar.style().template(..) installed with set_style", "with_template, progress_chars", "with_template, progress_chars", "with_template, progress_chars"][order];
+                // (order 6, N = 20 only: no width in the placeholder, which means 20 columns)
+                for order in 0..if n <= 12 { 6 } else if n == 20 { 7 } else { 1 } {
+                let order_name = ["with_template, progress_chars", "progress_chars, template", "bar.style().template(..) installed with set_style", "with_template, progress_chars", "with_template, progress_chars", "with_template, progress_chars", "with_template, progress_chars"][order];
                 let tpl = match order {
                     3 => format!("|{{bar:>{n}}}|"),
                     4 => format!("|{{bar:^{n}}}|"),
                     5 => format!("|{{bar:<{n}}}|"),
+                    6 => "|{bar}|".to_string(),
                     _ => tpl.clone(),
                 };
                 let style = match catch(|| match order {
